@@ -192,4 +192,149 @@ theorem rollbackIn_refines {c : Ctx} {ready : List Wid} (hAR : AllReady c.own re
         simp only
         rw [hrem w]; simp [hw']
 
+-- ------------------------------------------------------------------ rollbackOwnedOut
+
+/-- `rollbackAddr` only touches the address records -/
+theorem rollbackAddr_eq (s : Store) (w : Wid) (o : Out) (h : Nat) :
+    ∃ a, rollbackAddr s w o h = { s with addrs := a } := by
+  unfold rollbackAddr
+  simp only
+  cases AMap.get s.addrs (w, o.cls.isStaking, o.addr) with
+  | none => exact ⟨s.addrs, rfl⟩
+  | some h' =>
+    simp only
+    split
+    · exact ⟨_, rfl⟩
+    · exact ⟨s.addrs, rfl⟩
+
+/-- dropping the unspent entry of the ledger coin `u` at outpoint (id, j): the coin leaves the ledger list,
+    every other table of the books stays -/
+theorem rollbackOwnedOut_refines {ready : List Wid} {s : Store} {bals : Bals} {Y : Book} {id : TxId}
+    {bm : BlockMeta} {j : Nat} {o : Out} {w : Wid} {u : UCoin}
+    (hK : KeysOK Y.L) (hR : AgreeR s Y) (hB : AgreeBal ready bals Y)
+    (hu : lookupU Y.L id j = some u) (hw : u.wallet = w) (ho : u.out = o) (hready : ready.contains w = true) :
+    ∃ sb', rollbackOwnedOut id bm (s, bals) j o w = .ok sb' ∧
+      AgreeR sb'.1 { Y with L := Y.L.filter (fun u' => !UCoin.at id j u') } ∧
+      AgreeBal ready sb'.2 { Y with L := Y.L.filter (fun u' => !UCoin.at id j u') } ∧
+      SameRest s sb'.1 ∧ sb'.1.pendCred = s.pendCred ∧ sb'.1.pendGame = s.pendGame := by
+  subst hw ho
+  obtain ⟨hmem, htx, hidx⟩ := lookupU_some hu
+  have h1 : AMap.get s.unspent (u.wallet, id, j) = some u.blk := by
+    rw [hR.unspent, hu]; simp [Option.filter]
+  have h3 : getBal bals u.wallet = totalU Y.L u.wallet := getBal_of_agree hB hready
+  have h4 : u.out.amt ≤ totalU Y.L u.wallet := amt_le_totalU hmem
+  have h5 : ¬ (getBal bals u.wallet < u.out.amt) := by rw [h3]; omega
+  obtain ⟨a, ha⟩ := rollbackAddr_eq { s with unspent := AMap.erase s.unspent (u.wallet, id, j) } u.wallet u.out bm.height
+  refine ⟨({ s with unspent := AMap.erase s.unspent (u.wallet, id, j), addrs := a },
+      AMap.put bals u.wallet (getBal bals u.wallet - u.out.amt)), ?_, ?_, ?_, ⟨rfl, rfl, rfl, rfl, rfl⟩, rfl, rfl⟩
+  · unfold rollbackOwnedOut
+    simp only [h1, Option.isSome_some, if_true, h5, if_false, ha]
+    rfl
+  · constructor
+    · intro w tx idx
+      simp only
+      rw [AMap.get_erase, lookupU_filter, hR.unspent]
+      by_cases hk : id = tx ∧ j = idx
+      · obtain ⟨rfl, rfl⟩ := hk
+        by_cases hw : u.wallet = w
+        · simp [hw]
+        · have : ¬ ((u.wallet, id, j) = (w, id, j)) := by
+            intro h; injection h with h _; exact hw h
+          simp [this, hu, hw, Option.filter]
+      · have : ¬ ((u.wallet, id, j) = (w, tx, idx)) := by
+          intro h; injection h with _ h; injection h with ha hb; exact hk ⟨ha, hb⟩
+        simp [this, hk]
+    · exact hR.credits
+    · exact hR.debits
+    · exact hR.game
+    · exact hR.txrecs
+  · intro w hw
+    simp only
+    rw [AMap.get_put]
+    have hrem := totalU_remove hK hmem w
+    rw [htx, hidx] at hrem
+    rw [hrem]
+    by_cases hw' : u.wallet = w
+    · simp only [hw', if_true]
+      rw [← hw', h3]
+    · simp only [hw', if_false]
+      rw [hB w hw]; simp
+
+-- ------------------------------------------------------------------ rollbackOut ⊑ uncreateB
+
+/-- the store after the first two writes of the TxOut loop body (credit deleted, unmined credit written) -/
+def rollbackOutPre (s : Store) (id : TxId) (blk : BlockMeta) (i : Nat) (cr : Credit) : Store :=
+  { s with credits := AMap.erase s.credits ⟨id, blk, i⟩,
+           pendCred := AMap.put s.pendCred (id, i) { cr with spentBy := none } }
+
+theorem rollbackOut_miss {c : Ctx} {id : TxId} {blk : BlockMeta} {sb : Store × Bals} {i : Nat} {o : Out}
+    (hc : AMap.get sb.1.credits ⟨id, blk, i⟩ = none) : rollbackOut c id blk sb i o = .ok sb := by
+  unfold rollbackOut
+  simp only [hc]
+  rfl
+
+theorem rollbackOut_owned {c : Ctx} {id : TxId} {blk : BlockMeta} {sb : Store × Bals} {i : Nat} {o : Out}
+    {cr : Credit} {w : Wid} {ch : Bool}
+    (hc : AMap.get sb.1.credits ⟨id, blk, i⟩ = some cr) (hr : o.cls ≠ .raw)
+    (hg : AMap.get c.own o.addr = some (w, ch)) :
+    rollbackOut c id blk sb i o =
+      (rollbackOwnedOut id blk (rollbackOutPre sb.1 id blk i cr, sb.2) i o w >>= fun sb' =>
+        if isDeposit o.cls then
+          pure ({ sb'.1 with game := AMap.erase sb'.1.game ⟨w, o.cls.isBinding, false, id, blk.height, i⟩,
+                             pendGame := AMap.put sb'.1.pendGame (w, o.cls.isBinding, id, i) () }, sb'.2)
+        else pure sb') := by
+  unfold rollbackOut rollbackOutPre
+  simp only [hc, hr, hg, isDeposit_comm]
+  rfl
+
+/-- removing output `j` of a non-coinbase transaction -/
+theorem rollbackOut_refines {c : Ctx} {ready : List Wid} (hAR : AllReady c.own ready)
+    {s : Store} {bals : Bals} {t : Tx} {bm : BlockMeta} {j : Nat} {o : Out} {Y : Book}
+    (hL : Loc c.p c.own Y) (hR : AgreeR s Y) (hB : AgreeBal ready bals Y)
+    (hown : ∀ w ch, ownerOf c.own o = some (w, ch) →
+      lookupU Y.L t.id j = some ⟨w, t.id, j, bm, t.cb, o, ch⟩ ∧
+      (isDeposit o.cls = true → Y.game ⟨w, o.cls.isBinding, false, t.id, bm.height, j⟩ = some ()))
+    (hnone : ownerOf c.own o = none → Y.credits ⟨t.id, bm, j⟩ = none) :
+    ∃ sb', rollbackOut c t.id bm (s, bals) j o = .ok sb' ∧ AgreeR sb'.1 (uncreateB c.own t bm Y j o) ∧
+      AgreeBal ready sb'.2 (uncreateB c.own t bm Y j o) ∧ SameRest s sb'.1 := by
+  cases ho : ownerOf c.own o with
+  | none =>
+    have hY : uncreateB c.own t bm Y j o = Y := by unfold uncreateB; rw [ho]
+    rw [hY]
+    exact ⟨(s, bals), rollbackOut_miss (by rw [hR.credits]; exact hnone ho), hR, hB, SameRest.refl s⟩
+  | some wc =>
+    obtain ⟨w, ch⟩ := wc
+    have hu := (hown w ch ho).1
+    obtain ⟨hmem, -, -⟩ := lookupU_some hu
+    obtain ⟨hraw, hget⟩ := ownerOf_some ho
+    have hcred : AMap.get s.credits ⟨t.id, bm, j⟩ = some (creditOf c.p ⟨w, t.id, j, bm, t.cb, o, ch⟩) := by
+      rw [hR.credits]; exact hL.cred _ hmem
+    have hY : uncreateB c.own t bm Y j o =
+        { Y with
+          L := Y.L.filter (fun u => !UCoin.at t.id j u),
+          credits := upd Y.credits ⟨t.id, bm, j⟩ none,
+          game := if isDeposit o.cls then upd Y.game ⟨w, o.cls.isBinding, false, t.id, bm.height, j⟩ none
+                  else Y.game } := by
+      unfold uncreateB; rw [ho]
+    have hR0 : AgreeR (rollbackOutPre s t.id bm j (creditOf c.p ⟨w, t.id, j, bm, t.cb, o, ch⟩))
+        { Y with credits := upd Y.credits ⟨t.id, bm, j⟩ none } := by
+      refine ⟨hR.unspent, ?_, hR.debits, hR.game, hR.txrecs⟩
+      intro k
+      simp only [rollbackOutPre]
+      rw [AMap.get_erase, hR.credits]; rfl
+    obtain ⟨sb1, h1, hR1, hB1, hS1, -, -⟩ :=
+      rollbackOwnedOut_refines (bm := bm) (o := o) (w := w) (Y := { Y with credits := upd Y.credits ⟨t.id, bm, j⟩ none })
+        hL.keys hR0 hB hu rfl rfl (ready_of_owner hAR ho)
+    have hS1' : SameRest s sb1.1 := ⟨hS1.sync, hS1.syncedTo, hS1.status, hS1.balance, hS1.blocks⟩
+    rw [hY, rollbackOut_owned (sb := (s, bals)) hcred hraw hget, h1, M_ok_bind]
+    by_cases hd : isDeposit o.cls = true
+    · simp only [hd, if_true]
+      refine ⟨_, rfl, ?_, hB1, ⟨hS1'.sync, hS1'.syncedTo, hS1'.status, hS1'.balance, hS1'.blocks⟩⟩
+      refine ⟨hR1.unspent, hR1.credits, hR1.debits, ?_, hR1.txrecs⟩
+      intro k
+      simp only
+      rw [AMap.get_erase, hR1.game]; rfl
+    · simp only [hd, Bool.false_eq_true, if_false]
+      exact ⟨_, rfl, ⟨hR1.unspent, hR1.credits, hR1.debits, hR1.game, hR1.txrecs⟩, hB1, hS1'⟩
+
 end MW.Lemmas.Ledger
